@@ -288,7 +288,7 @@ def noise_gauss(a: Union[np.ndarray, List], snr=None, snr_in_db=True, std=1.0):
         # signal power; squared in floating point: a**2 wraps around for integer-typed signals
         sp = np.mean(np.asarray(a, dtype=float) ** 2)
 
-        if snr_in_db is True:
+        if snr_in_db is True or (isinstance(snr_in_db, np.bool_) and bool(snr_in_db)):
             std_n = (sp / (10 ** (snr / 10))) ** 0.5
         else:
             std_n = (sp / snr) ** 0.5  # getting noise std from SNR definition
